@@ -178,6 +178,18 @@ type DiskInfo struct {
 	Configs [][]string `json:"configs,omitempty"`
 }
 
+// ApiInfo records one raw public-API call (C18).
+type ApiInfo struct {
+	Call   string `json:"call"`
+	Args   string `json:"args,omitempty"`
+	State  string `json:"state,omitempty"` // node state when the call was made
+	Panic  string `json:"panic,omitempty"`
+	Err    string `json:"err,omitempty"`
+	Result string `json:"result,omitempty"`
+	DurUs  int64  `json:"dur_us"`
+	Bound  int64  `json:"bound_us,omitempty"`
+}
+
 // Event is one element of the recorded history (DESIGN.md appendix A).
 type Event struct {
 	Seq  int    `json:"seq"`
@@ -197,6 +209,7 @@ type Event struct {
 	Client  *ClientInfo  `json:"client,omitempty"`
 	Fault   *FaultInfo   `json:"fault,omitempty"`
 	Disk    *DiskInfo    `json:"disk,omitempty"`
+	Api     *ApiInfo     `json:"api,omitempty"`
 	Note    string       `json:"note,omitempty"`
 }
 
